@@ -316,14 +316,19 @@ class PropertyCheck:
         pid = self.pid
         broken = []      # names of obligations / correspondence cases that no longer check
         gen_info = self.generate()
-        # 1. prove
-        targets = list(self.props_modules) + list(self.extra_build)
-        ok, out = lake_build(targets)
+        # 1. prove (property theorems) and build the driver (separately: a failing obligation must not
+        #    prevent the correspondence / dynamic probe from running)
+        drv_ok, drv_out = (True, "")
+        if self.extra_build:
+            drv_ok, drv_out = lake_build(list(self.extra_build))
+            if not drv_ok:
+                broken.append({"kind": "lake build (driver/model)", "detail": re.findall(r"error: ([^\n]*)", drv_out)[:10]})
+        ok, out = lake_build(list(self.props_modules))
         build_err = None
         if not ok:
             build_err = out[-6000:]
             errs = re.findall(r"error: ([^\n]*)", out)
-            broken.append({"kind": "lake build", "detail": errs[:10]})
+            broken.append({"kind": "lake build (theorems)", "detail": errs[:10]})
         thm_axioms = {}
         n_obl = 0
         n_dis = 0
@@ -350,7 +355,7 @@ class PropertyCheck:
         # 2. correspond
         corr = CorrResult()
         corr_err = None
-        if ok:
+        if drv_ok:
             try:
                 corr = self.correspond()
             except Infra:
